@@ -690,3 +690,109 @@ def unsupported_members(ctx):
         finally:
             common.rmtree(d)
     return n
+
+
+# ---------------------------------------------------------------------------------------------- element types of list arguments
+ELEM_DRIVER = r'''
+import json, sys
+sys.path.insert(0, sys.argv[1])
+M = __import__(sys.argv[2])
+out = open(sys.argv[4], "a")
+def mk(v):
+    if isinstance(v, dict): return complex(0, v["j"])
+    return v
+for c in json.load(open(sys.argv[3])):
+    out.write(json.dumps({"i": c["i"], "start": True}) + "\n"); out.flush()
+    try:
+        r = getattr(M, c["fn"])([mk(x) for x in c["arr"]])
+        res = {"i": c["i"], "r": "ok", "value": r}
+    except BaseException as e:
+        res = {"i": c["i"], "r": "exc", "type": type(e).__name__, "msg": str(e)[:160]}
+    out.write(json.dumps(res) + "\n"); out.flush()
+'''
+
+
+def elems_run(ctx, thorough):
+    """list-mode array arguments of every element type the list converters are generated for (oracle, implementation only):
+    a list of convertible items delivers every item converted to the element type; a list with one item of a wrong type at
+    any index raises TypeError / ValueError - never SystemError, never a silently wrong call"""
+    from tools import c03_helpers
+    r = common.rng("c03-elems")
+    total = 0
+    for lang in ("c++", "c"):
+        cxx = lang != "c"
+        name = "elm" + ("x" if cxx else "c")
+        elems = c03_helpers.ELEMS + [("int", "int", 32, True), ("double", "double", -1, True)]
+        decls = "\n".join("- decl: double sum_%s(const %s *arr +rank(1), int n +implied(size(arr)))" % (f, t) for f, t, _b, _s in elems)
+        hdr = name + (".hpp" if cxx else ".h")
+        protos = "#include <stdint.h>\n" + "".join("double sum_%s(const %s *arr, int n);\n" % (f, t) for f, t, _b, _s in elems)
+        body = "".join("double sum_%s(const %s *arr, int n) { double s = 0; int i; for (i = 0; i < n; i++) s += (double) arr[i] * (i + 1); return s; }\n"
+                       % (f, t) for f, t, _b, _s in elems)
+        ytext = IMP_YAML % {"name": name, "hdr": hdr, "lang": lang, "decls": decls}
+        rp = {"yaml": ytext, "language": lang, "header": protos}
+        d = common.scratch()
+        try:
+            y = shroudrun.write_yaml(d, name + ".yaml", ytext)
+            open(os.path.join(d, hdr), "w").write(protos)
+            subj = os.path.join(d, "subject." + ("cpp" if cxx else "c"))
+            open(subj, "w").write('#include "%s"\n%s' % (hdr, body))
+            out = os.path.join(d, "out")
+            os.makedirs(out)
+            cfg, exc, _ = shroudrun.run_inproc([y], out, path=[d])
+            if exc is not None:
+                ctx.fail("generate:elems-" + lang, "Shroud fails on list-mode arrays of the native element types: %r" % (exc,), rp)
+                continue
+            okc, log = compile_so(d, out, name, cxx, [subj])
+            if not okc:
+                ctx.fail("compile:elems-" + lang, "list-mode arrays of the native element types do not compile: " + log[-600:], rp)
+                continue
+            cases, meta = [], []
+            for f, t, bits, signed in elems:
+                isfloat = bits <= 0
+                goods = [[], [1, 2, 3], [0, -1, 5], [-1], [255, 256, 65535, 65536, -32768]] + ([[1.5, -2.0]] if isfloat else [])
+                for _ in range(3 if thorough else 1):
+                    goods.append([r.randrange(-300, 70000) for _ in range(r.randrange(1, 6))])
+                for g in goods:
+                    cases.append({"i": len(cases), "fn": "sum_" + f, "arr": g})
+                    meta.append((f, bits, signed, g, None))
+                bads = ["x", None, {"j": 2.5}] + ([] if isfloat else [2.5])
+                for b in bads:
+                    for n in (1, 3):
+                        for at in range(n):
+                            arr = [r.randrange(0, 9) for _ in range(n)]
+                            arr[at] = b
+                            cases.append({"i": len(cases), "fn": "sum_" + f, "arr": arr})
+                            meta.append((f, bits, signed, arr, at))
+            rc, err, res, started = run_driver(d, ELEM_DRIVER, name, cases)
+            if rc != 0:
+                c = cases[started] if started is not None else None
+                ctx.fail("crash:elems-" + lang, "list arguments crashed (rc=%s) at %s: %s" % (rc, json.dumps(c), err), dict(rp, call=c))
+            for c, (f, bits, signed, arr, bad_at) in zip(cases, meta):
+                o = res.get(c["i"])
+                if o is None:
+                    continue
+                ctx.count(1)
+                total += 1
+                call = "%s.sum_%s(%s)" % (name, f, json.dumps(arr))
+                if bad_at is None:
+                    want = 0.0
+                    for i, v in enumerate(arr):
+                        cv = float(v) if bits == -1 else c03_helpers.wrap_c(v, (bits, signed))
+                        want += float(cv) * (i + 1)
+                    if o["r"] != "ok":
+                        ctx.fail("elem-list:%s:%s" % (lang, f), "%s raised %s: %s" % (call, o["type"], o["msg"]), dict(rp, call=c))
+                    elif abs(o["value"] - want) > 1e-6 * max(1.0, abs(want)):
+                        ctx.fail("elem-list:%s:%s" % (lang, f), "%s: the library summed %r, the items converted to %s give %r" % (
+                            call, o["value"], f, want), dict(rp, call=c))
+                    if len(arr) > 1:
+                        ctx.nontrivial("elem-good:%s:%s:%d" % (lang, f, len(arr)))
+                else:
+                    ctx.nontrivial("elem-bad:%s:%s:%s:%d" % (lang, f, type(arr[bad_at]).__name__, bad_at))
+                    if o["r"] == "ok":
+                        ctx.fail("elem-list-accepted:%s:%s" % (lang, f), "%s was accepted (returned %r)" % (call, o["value"]), dict(rp, call=c))
+                    elif o["type"] not in ("TypeError", "ValueError"):
+                        ctx.fail("elem-list-exc:%s:%s" % (lang, f), "%s raised %s: %s (a wrongly typed item must give TypeError / ValueError)" % (
+                            call, o["type"], o["msg"]), dict(rp, call=c))
+        finally:
+            common.rmtree(d)
+    return total
